@@ -41,7 +41,8 @@ func (f *FnVC) mapKey(k Val) Term {
 func (f *FnVC) mapComps(mt *types.Map) (has, val, ln string, ks, vs string) {
 	ks = f.mapKeySort(mt.Key())
 	vs = f.TE.Sort(mt.Elem())
-	id := sortKey(ks) + "$" + sortKey(vs)
+	// one heap component per Go map type: maps of different types can never alias
+	id := sanitize(shortType(mt))
 	return "MH$" + id, "MV$" + id, "ML$" + id, ks, vs
 }
 
